@@ -65,6 +65,8 @@ expression_t::expression_t(kind_t kind, const position_t& pos)
 
 expression_t expression_t::clone() const
 {
+    if (empty())  // e.g. the missing field of an incomplete initialiser
+        return *this;
     auto expr = expression_t{data->kind, data->position};
     expr.data->value = data->value;
     expr.data->type = data->type;
@@ -76,6 +78,8 @@ expression_t expression_t::clone() const
 
 expression_t expression_t::clone_deeper() const
 {
+    if (empty())  // e.g. the missing field of an incomplete initialiser
+        return *this;
     auto expr = expression_t{data->kind, data->position};
     expr.data->value = data->value;
     expr.data->type = data->type;
@@ -90,6 +94,8 @@ expression_t expression_t::clone_deeper() const
 
 expression_t expression_t::clone_deeper(symbol_t from, symbol_t to) const
 {
+    if (empty())  // e.g. the missing field of an incomplete initialiser
+        return *this;
     auto expr = expression_t{data->kind, data->position};
     expr.data->value = data->value;
     expr.data->type = data->type;
@@ -105,6 +111,8 @@ expression_t expression_t::clone_deeper(symbol_t from, symbol_t to) const
 
 expression_t expression_t::clone_deeper(frame_t frame, frame_t select) const
 {
+    if (empty())  // e.g. the missing field of an incomplete initialiser
+        return *this;
     auto expr = expression_t{data->kind, data->position};
     expr.data->value = data->value;
     expr.data->type = data->type;
@@ -613,6 +621,10 @@ bool expression_t::equal(const expression_t& e) const
 {
     if (data == e.data) {
         return true;
+    }
+
+    if (empty() || e.empty()) {  // exactly one of them is the empty expression
+        return false;
     }
 
     if (get_size() != e.get_size() || data->kind != e.data->kind ||
